@@ -493,7 +493,10 @@ impl Check for C11 {
             let exceeded = c.did_exceed_match_limit();
             ctx.label_if(exceeded, "limit:exceeded");
             let strict = is_sub(&gm, &all_ms);
-            if !strict && !(with_preds && has_optional) {
+            // With quantifiers/alternations the unlimited stream is not a complete reference (of several overlapping
+            // candidates only some are reported, and which ones depends on which states a limit evicts): the statement
+            // only demands that dropped matches are reported, so nothing is required here.
+            if !strict && !has_optional {
                 // with optional captures the runtime keeps only the match with the most captures; under a limit the
                 // larger one may be evicted and a sub-binding survives: accept sub-bindings when the query has such parts
                 let relaxed = (has_optional || wild_root) && got.iter().all(|g| m_all.iter().any(|m| m.0 == g.0 && g.1.iter().all(|x| m.1.contains(x))));
@@ -567,7 +570,7 @@ impl Check for C11 {
             let expect: Vec<M> = m_all.iter().filter(|m| root_of(m).map(|r| xt.nodes[r].depth <= d).unwrap_or(true)).cloned().collect();
             let rooted_known = m_all.iter().all(|m| root_of(m).is_some());
             if rooted_known && multiset(&got) != multiset(&expect) {
-                ctx.fail(if wild_root { "C11:max_start_depth:wildcard_root" } else { "C11:max_start_depth" }, format!("max_start_depth {d}: {} matches returned, {} unrestricted matches have their root at depth <= {d}\n{hdr}", got.len(), expect.len()));
+                ctx.fail(if wild_root { "C11:max_start_depth:wildcard_root" } else if has_optional { "C11:max_start_depth:quantifier_or_alternation" } else { "C11:max_start_depth" }, format!("max_start_depth {d}: {} matches returned, {} unrestricted matches have their root at depth <= {d}\n{hdr}", got.len(), expect.len()));
                 return;
             }
             ctx.label("cfg:max_start_depth");
